@@ -28,6 +28,7 @@ from __future__ import annotations
 
 import ast
 
+from ..astutil import first_stmt, last_stmt  # noqa: F401
 from ..astutil import (ancestors, call_name, calls_in, conjuncts, guards_of, names_in, norm,
                        single_def_value, stmt_of, stores_to, walk_no_nested)
 from ..loader import ClassInfo, FunctionInfo
@@ -53,7 +54,7 @@ def early_exit_facts(fn: ast.AST, node: ast.AST):
                 for s in bl:
                     if s is child:
                         break
-                    if isinstance(s, ast.If) and s.body and isinstance(s.body[-1], (ast.Return, ast.Raise, ast.Continue)) \
+                    if isinstance(s, ast.If) and isinstance(last_stmt(s.body), (ast.Return, ast.Raise, ast.Continue)) \
                             and not s.orelse:
                         out.append((s.test, False))
         if a is fn:
